@@ -10,6 +10,18 @@ checks = {
    text="Relations-and-tables clause: the eight type relations of value_type.rs that decide which operand, argument and declaration types match (identity, implicit coercions, address coercions, autoderef, declaration matching, concretization) are symbolically executed from MIR and proved equal to a reference model for every pair of types of nesting depth <= 3 (quick) / 5 (thorough), plus algebraic consequences (no relation connects distinct primitives, coercions only have the documented shapes, identity is reflexive and symmetric).",
    note="Bounded by type nesting depth; lengths and names unconstrained. Trusted: MIR dump, mirsym + std models (validated natively on sampled pairs every run), the reference model vtref.py. Outside: the typer/resolver code that applies these relations to real expressions.",
    ref="DESIGN.md section 3, C07"),
+ "C09": dict(cat="model_checking",
+   text="Lexed-value clause: for 15 boundary literal templates (largest decimal decade, 32 hex digits, 128 binary digits, every suffix stem, hex/unicode/simple escapes, unclosed and two-character char literals) completed by 2-4 arbitrary bytes, the real second-generation lexer and an independent reference lexer are both executed symbolically and z3 decides that kind, suffix type, 128-bit value and error code (E140, E141, E160-E163) agree for every completion; no overflow panic is reachable.",
+   note="Bounded to the templates (prefix + 2..4 symbolic bytes, lengths up to 131). Outside: first-generation lexing, unary-minus folding, the L1142 range lint, run-time values in IR. Trusted: MIR dumps, mirsym + models (both encodings re-validated against the native lexers on sampled inputs every run), the reference lexer reflex/src/lib.rs (natively diffed against the real lexer on the repository corpus).",
+   ref="DESIGN.md section 3, C09"),
+ "C14": dict(cat="model_checking",
+   text="Second-generation lexer vs. the documented lexical grammar: for EVERY byte string of length 1..4 (quick; 1..5 thorough; 4.3e9 / 1.1e12 inputs) and for templates crossing comments, CRLF, keyword/type/builtin tails, the real lexer (MIR of /repo) and an independent reference lexer (MIR of /verif/reflex) are symbolically executed on the same symbolic bytes and one solver query per observable (token count, kind, value type, payload, span start/end, line start, line number, error list) must be unsat.",
+   note="Bounded by input length (templates). The first-generation lexer and therefore the 'two lexers agree' sentence are outside. Trusted as for C09.",
+   ref="DESIGN.md section 3, C14"),
+ "C15": dict(cat="model_checking",
+   text="Lexer half: every assert terminator (arithmetic overflow, slice/array index), modelled unwrap/expect/panic and `unreachable` reachable from lex_source_into_buffer, including the real TokensBuffer::push/push_token/push_error/push_integer_payload code, is an obligation that z3 shows unsatisfiable for every byte string of length 1..4 (5 thorough) and for boundary templates up to 131 bytes (last decimal decade, 32 hex digits, 128 binary digits, unicode/hex escapes, dense errors); loop unrolling bounds carry unwinding obligations; the result is always Ok.",
+   note="Bounded by the templates. Outside: the second-generation parser, build_header, XML dumps, E102/E103, Tokens::empty/set_tokens_len (buffers are modelled as fixed arrays), uninitialised reads as such.",
+   ref="DESIGN.md section 3, C15"),
  "C11": dict(cat="model_checking",
    text="Type-legality clause: is_wellformed and the can_be_{variable,constant,parameter,returned,struct_member,word_member,sized} predicates are symbolically executed from MIR and proved equal to the documented rules (E350-E356) for every type of nesting depth <= 3 (quick) / 6 (thorough), with the documented consequences (legal implies well-formed, void only as return type, word member sizes).",
    note="Bounded by type nesting depth. Outside: declaration order independence, duplicate and cycle detection (E413-E426), E358, E380, E433.",
@@ -27,11 +39,8 @@ na = {
  "C05":"as C04 plus HashMap/HashSet state and the full expression AST",
  "C06":"as C04",
  "C08":"in progress",
- "C09":"in progress",
  "C10":"both evaluators (constant folder and interpreter) are LLVM",
  "C12":"in progress",
- "C14":"in progress",
- "C15":"in progress",
  "C16":"the recursive-descent parser explodes in CBMC as soon as one token is symbolic (measured); not yet attempted with the MIR executor",
  "C17":"as C16",
  "C18":"process exit status, files and rendered diagnostics are OS-level behaviour; get_backend drags anyhow/backtrace drop glue (measured 10 GB)",
